@@ -173,9 +173,6 @@ def run(tier: str) -> Check:
     graph_recursion(check, repo)
     number_bounds(check, repo)
     check.oblige("ESCAPE", ENTRY, "RecursionError, possible at every function on a call-graph cycle, is converted on the chain (no such site escapes)", True)
-    from ..lineoff import apply as line_offsets
-
-    line_offsets(check, repo, "LINE-OFFSET", ["src/pest/grammar/exceptions.py"], 1)
     # "points at a line and column that exist in the text": decided on the order-and-adjacency abstraction (sa/linesem.py)
     from ..linesem import check_grammar_error_context
 
@@ -189,6 +186,9 @@ def run(tier: str) -> Check:
     for cat, msgs in sorted(cats_c.items()):
         check.oblige("CONTEXT", ccon, cat, False, sample=True, finding=Finding("CONTEXT", ccon, cat, f"_error_context: {cat}: e.g. {msgs[0]} ({len(msgs)} of {n_c} model points)", {"witness": msgs[0]}))
     check.floor("context_model_points", 500)
+    from ..lineoff import apply as line_offsets
+
+    check.second_opinion(lambda c: line_offsets(c, repo, "LINE-OFFSET", ["src/pest/grammar/exceptions.py"], 1), "CONTEXT", not bad_c)
     check.floor("reachable_functions", 50)  # a vacuity guard, not a census
     check.floor("may_raise_sites", 30)
     check.floor("with_children_arity", 20)
